@@ -19,13 +19,13 @@ EXTENDS Integers, Sequences, FiniteSets, TLC, Json
 Trace == ndJsonDeserialize("trace.ndjson")
 Starts == {i \in 1..Len(Trace) : Trace[i].e = "hdr"}
 
-VARIABLES l, op, d, p2, tsub, emits, nrecv, lastIdx, srcTerm, outTerm, unsE, consumed, rus, inEmit, post
-vars == <<l, op, d, p2, tsub, emits, nrecv, lastIdx, srcTerm, outTerm, unsE, consumed, rus, inEmit, post>>
+VARIABLES l, op, d, p2, tsub, emits, nrecv, lastIdx, srcTerm, outTerm, unsE, consumed, rus, inEmit, post, cancelAt, postCancel
+vars == <<l, op, d, p2, tsub, emits, nrecv, lastIdx, srcTerm, outTerm, unsE, consumed, rus, inEmit, post, cancelAt, postCancel>>
 Ev == Trace[l]
 Is(e) == l <= Len(Trace) /\ Ev.e = e
 
 Init == \E i \in Starts : /\ l = i + 1 /\ op = Trace[i].s /\ d = Trace[i].v /\ p2 = Trace[i].i
-          /\ tsub = 0 /\ emits = <<>> /\ nrecv = 0 /\ lastIdx = 0 /\ srcTerm = FALSE /\ outTerm = FALSE /\ unsE = FALSE /\ consumed = 0 /\ rus = <<>> /\ inEmit = "no" /\ post = 0
+          /\ tsub = 0 /\ emits = <<>> /\ nrecv = 0 /\ lastIdx = 0 /\ srcTerm = FALSE /\ outTerm = FALSE /\ unsE = FALSE /\ consumed = 0 /\ rus = <<>> /\ inEmit = "no" /\ post = 0 /\ cancelAt = -1 /\ postCancel = 0
 
 TimeoutCause == 9
 LastActivity == IF emits = <<>> THEN tsub ELSE emits[Len(emits)].u
@@ -76,11 +76,11 @@ RecvOK ==
     [] OTHER -> FALSE
 
 Step ==
-  \/ /\ Is("sub") /\ tsub' = Ev.u /\ UNCHANGED <<emits, nrecv, lastIdx, srcTerm, outTerm, unsE, consumed, rus, inEmit, post>>
+  \/ /\ Is("sub") /\ tsub' = Ev.u /\ UNCHANGED <<emits, nrecv, lastIdx, srcTerm, outTerm, unsE, consumed, rus, inEmit, post, cancelAt, postCancel>>
   \/ /\ Is("emit") /\ emits' = Append(emits, [k |-> Ev.k, v |-> Ev.v, u |-> Ev.u])
      /\ inEmit' = IF unsE THEN "after" ELSE "before"
-     /\ srcTerm' = (srcTerm \/ Ev.k # "N") /\ UNCHANGED <<tsub, nrecv, lastIdx, outTerm, unsE, consumed, rus, post>>
-  \/ /\ Is("emitE") /\ inEmit' = "no" /\ UNCHANGED <<tsub, emits, nrecv, lastIdx, srcTerm, outTerm, unsE, consumed, rus, post>>
+     /\ srcTerm' = (srcTerm \/ Ev.k # "N") /\ UNCHANGED <<tsub, nrecv, lastIdx, outTerm, unsE, consumed, rus, post, cancelAt, postCancel>>
+  \/ /\ Is("emitE") /\ inEmit' = "no" /\ UNCHANGED <<tsub, emits, nrecv, lastIdx, srcTerm, outTerm, unsE, consumed, rus, post, cancelAt, postCancel>>
   \/ /\ Is("recv")
      /\ ~outTerm                               \* grammar
      \* silence after unsubscription: only a notification whose emission began before Unsubscribe returned may still arrive
@@ -95,16 +95,20 @@ Step ==
      /\ rus' = IF Ev.k = "N" THEN Append(rus, Ev.u) ELSE rus
      \* a time buffer that completes has handed over everything the source emitted
      /\ (op \in {"buffertime", "buffertimecount"} /\ Ev.k = "C") => consumed = NVals
-     /\ UNCHANGED <<tsub, emits, srcTerm, unsE, inEmit>>
+     \* the periodic sources fall silent once the subscription context is cancelled: a tick may have been in flight (two, to be safe against a starved
+     \* goroutine whose select finds both the tick and the cancellation ready), a third value a whole period after the cancellation was not
+     /\ (cancelAt >= 0 /\ op \in {"interval", "intervalinitial"} /\ Ev.k = "N") => (postCancel <= 1 \/ Ev.u < cancelAt + d)
+     /\ postCancel' = IF cancelAt >= 0 /\ Ev.k = "N" THEN postCancel + 1 ELSE postCancel
+     /\ UNCHANGED <<tsub, emits, srcTerm, unsE, inEmit, cancelAt>>
   \* the subscription context is cancelled: no clause is relaxed by it (a delayed value still waits for its delay)
-  \/ /\ Is("cancel") /\ UNCHANGED <<tsub, emits, nrecv, lastIdx, srcTerm, outTerm, unsE, consumed, rus, inEmit, post>>
-  \/ /\ Is("unsubB") /\ UNCHANGED <<tsub, emits, nrecv, lastIdx, srcTerm, outTerm, unsE, consumed, rus, inEmit, post>>
-  \/ /\ Is("unsubE") /\ unsE' = TRUE /\ UNCHANGED <<tsub, emits, nrecv, lastIdx, srcTerm, outTerm, consumed, rus, inEmit, post>>
+  \/ /\ Is("cancel") /\ cancelAt' = Ev.u /\ UNCHANGED <<tsub, emits, nrecv, lastIdx, srcTerm, outTerm, unsE, consumed, rus, inEmit, post, postCancel>>
+  \/ /\ Is("unsubB") /\ UNCHANGED <<tsub, emits, nrecv, lastIdx, srcTerm, outTerm, unsE, consumed, rus, inEmit, post, cancelAt, postCancel>>
+  \/ /\ Is("unsubE") /\ unsE' = TRUE /\ UNCHANGED <<tsub, emits, nrecv, lastIdx, srcTerm, outTerm, consumed, rus, inEmit, post, cancelAt, postCancel>>
   \/ /\ Is("end")
      \* Delay hands over everything unless it was unsubscribed; a terminated source terminates the output of the pass-through time operators
      /\ (op \in {"delay", "delayeach"} /\ ~unsE) => nrecv = Len(emits)
      /\ PrintT(<<"ACCEPT", Ev.t>>)
-     /\ UNCHANGED <<tsub, emits, nrecv, lastIdx, srcTerm, outTerm, unsE, consumed, rus, inEmit, post>>
+     /\ UNCHANGED <<tsub, emits, nrecv, lastIdx, srcTerm, outTerm, unsE, consumed, rus, inEmit, post, cancelAt, postCancel>>
 
 Next == Step /\ l' = l + 1 /\ UNCHANGED <<op, d, p2>>
 Spec == Init /\ [][Next]_vars
